@@ -15,6 +15,11 @@ TIERS = {
     "thorough": dict(batches=[("all", 1500, 1), ("channels,chaos", 800, 1), ("calls,events", 600, 1), ("all", 150, 10)], mc_workers=16, mc_timeout=3300),
 }
 
+BATCHES_C19 = {
+    "quick": [("discovery", 120, 1), ("discovery,chaos,calls", 60, 1), ("discovery", 10, 6)],
+    "thorough": [("discovery", 2500, 1), ("discovery,chaos,calls,events", 1200, 1), ("discovery", 150, 10)],
+}
+
 SWEEP = {
     "quick": dict(programs=4, points=10),
     "thorough": dict(programs=40, points=0),
@@ -28,6 +33,8 @@ def signature(run):
     for r in run:
         if r.get("t") == "api" and r.get("ph") == "ret":
             sig.append(r["task"].split(".")[-1].rstrip("0123456789_") + ":" + r["op"] + ":" + r["res"])
+        elif r.get("t") == "fact" and r.get("what") == "devent":
+            sig.append(f"devent:{r['d']['key']}:{'c' if r['d']['created'] else 'd'}")
     return tuple(sig)
 
 
@@ -53,6 +60,8 @@ def run(prop, tier, seed):
                 verdict.violation(f"design check {cfgfile}: {res['violation']}",
                                   dict(kind="tlc-mc", config=cfgfile, module=name + ".tla", output_tail=res["raw"][-6000:]))
     batches = cfg["batches"] if prop != "C15" else [("sweep", SWEEP[tier]["programs"], SWEEP[tier]["points"])]
+    if prop == "C19":
+        batches = BATCHES_C19[tier]
     for bi, (mix, runs, schedules) in enumerate(batches):
         s = seed * 1000 + bi
         cpath = os.path.join(wd, f"client-{bi}.ndjson")
